@@ -24,7 +24,8 @@ LAYOUTS = {
 INPUT_SETS = [["good", "bad"], ["bad", "good"], [None, "good"], ["good", None], ["", "good"], ["bad", "worse"],
               # the same instant in two notations / two instants (for the shipped constraints 932.. of expression set 3)
               ["2022-01-01T12:00:00+00:00", "2022-01-01T14:00:00+02:00"], ["2021-12-31T23:00:00+00:00", "2022-01-01T00:00:00+01:00"]]
-INPUT_SETS3 = [["good", "bad", None], ["bad", None, "good"], [None, "good", "bad"]]
+INPUT_SETS3 = [["good", "bad", None], ["bad", None, "good"], [None, "good", "bad"], ["good", "bad", "bad"], ["bad", "good", "good"],
+               ["bad", "good", "bad"]]
 EXPR_SETS = [["Muss [1][950]", "Muss [1][950]", "Muss [1][950]"],  # identical expressions (shared FC key and FC expression)
              ["Muss [4P][950]", "Muss [1][950]", "Soll [1][950]"],  # the first one sits behind a package (a yield BEFORE the set)
              ["Muss [1][950]", "Muss [4P][950] U [951]", "Kann [1][950]"],
